@@ -379,6 +379,16 @@ func Do(addr string, r Req) Resp {
 	if err != nil {
 		return Resp{Status: resp.StatusCode, Headers: resp.Header, Body: body, Err: err}
 	}
+	if tf := os.Getenv("VERIF_TRACE_REQ"); tf != "" {
+		if f, err := os.OpenFile(tf, os.O_APPEND|os.O_CREATE|os.O_WRONLY, 0o644); err == nil {
+			b := body
+			if len(b) > 160 {
+				b = b[:160]
+			}
+			fmt.Fprintf(f, "RSP %d len=%d %q\n", resp.StatusCode, len(body), b)
+			f.Close()
+		}
+	}
 	return Resp{Status: resp.StatusCode, Headers: resp.Header, Body: body}
 }
 
